@@ -93,7 +93,7 @@ class _Out:
         self.n += n
         if key is not None:
             self.keys.append(key)
-        if sample is not None and len(self.samples) < 2:
+        if sample is not None and all(x.get('contract') != sample.get('contract') for x in self.samples):
             self.samples.append(sample)
 
     def v(self, key, what, witness=None, native=None):
@@ -360,7 +360,7 @@ def _cgr_contracts(i, r, out):
         return
     left, right = O.side_view(list(G) + list(R)), O.side_view(prods)
     out.keys.append(('cgr', s0))
-    if len(out.samples) < 2:
+    if all(x.get('contract') != 'centre = recorded edits' for x in out.samples):
         out.samples.append({'contract': 'centre = recorded edits', 'reaction': s0, 'edits': wit['edits'], 'center_atoms': sorted(cgr.center_atoms)})
     ok = _check_cgr(cgr, left, right, 'cgr', s0, wit, out, expected_centre=None if dropped else touched)
     # molecule-level operator on the two unions
@@ -490,12 +490,15 @@ def bounded(run):
                       witness={'reaction': format(probe, 'm')}, native=repr(e))
     _tokens(run)
     gaps, notes = 0, {}
+    shown = {}
     for nc, keys, samples, viol, g, nt in pmap(_reaction, range(n), chunksize=4):
         run.cases += nc
         for kx in keys:
             run.case(0, key=kx)
         for sx in samples:
-            run.case(0, sample=sx)
+            if shown.get(sx.get('contract'), 0) < 2:     # two samples per contract in the evidence
+                shown[sx.get('contract')] = shown.get(sx.get('contract'), 0) + 1
+                run.case(0, sample=sx)
         for v in viol:
             run.violation(v[0], v[1], witness=v[2], native=v[3])
         gaps += g
@@ -512,6 +515,22 @@ def replay(rec):
     from bounded import domains as D
     w = rec.get('witness') or {}
     roles = w.get('roles')
+    if rec['key'].startswith('tokens:') or rec['key'].startswith('cgr-str-raises'):
+        class R:      # minimal recorder with the Run interface used by _tokens
+            def __init__(self):
+                self.keys = []
+            def case(self, *a, **k):
+                pass
+            def violation(self, key, what, **k):
+                print(what)
+                self.keys.append(key)
+        rr = R()
+        try:
+            _tokens(rr)
+        except Exception as e:
+            print(type(e).__name__, e)
+            return False
+        return rec['key'] not in rr.keys
     if not roles:
         return False
     ms = []
@@ -531,6 +550,15 @@ def replay(rec):
             for P2 in itertools.permutations(ms[2]):
                 for G2 in itertools.permutations(ms[1]):
                     ok &= str(ReactionContainer(R2, P2, G2)) == str(rx)
+    elif key.startswith('renumber:'):
+        mp = {int(k): v for k, v in w['permutation'].items()}
+        def rn(m):
+            c = m.copy()
+            c.remap({n: mp[n] for n in c})
+            return c
+        r2 = ReactionContainer([rn(m) for m in ms[0]][::-1], [rn(m) for m in ms[2]][::-1], [rn(m) for m in ms[1]])
+        print('CGR', ~rx, '\nCGR renumbered', ~r2)
+        ok = str(~r2) == str(~rx) and str(r2) == str(rx)
     elif key.startswith('roundtrip'):
         back = smiles(str(rx))
         for m in back.molecules():
